@@ -119,17 +119,30 @@ class _Rec:
 
 
 class _WFile:
-    def __init__(self, f, rec, name, binary):
-        self._f, self._rec, self._name, self._bin = f, rec, name, binary
+    _next = [0]
+
+    def __init__(self, f, rec, name, binary, truncate):
+        self._f, self._rec, self._bin = f, rec, binary
+        _WFile._next[0] += 1
+        self._hid = _WFile._next[0]
+        rec.log.append(["open", self._hid, name, bool(truncate)])
 
     def write(self, data):
         raw = data if self._bin else data.encode("utf-8")
-        self._rec.log.append(["write", self._name, raw.decode("latin-1")])
+        self._rec.log.append(["write", self._hid, raw.decode("latin-1")])
         return self._f.write(data)
 
     def writelines(self, lines):
         for ln in lines:
             self.write(ln)
+
+    def flush(self):
+        self._rec.log.append(["flush", self._hid])
+        return self._f.flush()
+
+    def close(self):
+        self._rec.log.append(["close", self._hid])
+        return self._f.close()
 
     def __getattr__(self, k):
         return getattr(self._f, k)
@@ -138,6 +151,7 @@ class _WFile:
         return self
 
     def __exit__(self, *a):
+        self._rec.log.append(["close", self._hid])
         return self._f.__exit__(*a)
 
     def __iter__(self):
@@ -153,10 +167,8 @@ def recording(root):
     def open_(file, mode="r", *a, **k):
         if isinstance(file, (str, bytes, os.PathLike)) and rec.inside(file) and any(c in mode for c in "wax+"):
             name = rec.name(file)
-            if "w" in mode or ("x" in mode):
-                rec.log.append(["truncate", name])
             f = real_open(file, mode, *a, **k)
-            return _WFile(f, rec, name, "b" in mode)
+            return _WFile(f, rec, name, "b" in mode, "w" in mode or "x" in mode)
         return real_open(file, mode, *a, **k)
 
     def replace_(src, dst, *a, **k):
@@ -182,69 +194,86 @@ def recording(root):
             real_open, real_replace, real_rename, real_remove, real_unlink)
 
 
-def apply_effects(state, log, partial=None):
-    """state: {name: latin-1 text}.  partial = (index of a write effect, bytes kept)"""
+def replay_log(state, log, lengths=None):
+    """File-system state after a kill that follows the effect-log prefix `log`.
+    state: {name: latin-1 text}.  Written data sits in the writer's buffer until the handle
+    is flushed or closed: `lengths` = {handle: bytes of its stream that reached the file}
+    for the handles still at risk (default: everything written)."""
     st = dict(state)
-    for i, e in enumerate(log):
-        if e[0] == "truncate":
-            st[e[1]] = ""
+    name_of, stream, base = {}, {}, {}
+    for e in log:
+        if e[0] == "open":
+            hid, name, trunc = e[1], e[2], e[3]
+            name_of[hid] = name
+            stream[hid] = ""
+            base[hid] = "" if trunc else st.get(name, "")
+            st[name] = base[hid]
         elif e[0] == "write":
-            data = e[2]
-            if partial is not None and i == partial[0]:
-                st[e[1]] = st.get(e[1], "") + data[: partial[1]]
-                return st
-            st[e[1]] = st.get(e[1], "") + data
+            stream[e[1]] += e[2]
         elif e[0] == "replace":
             if e[1] in st:
                 st[e[2]] = st.pop(e[1])
+            for hid, n in name_of.items():
+                if n == e[1]:
+                    name_of[hid] = e[2]   # an open handle follows its file
         elif e[0] == "remove":
             st.pop(e[1], None)
+    for hid, name in name_of.items():
+        if name in st or stream[hid]:
+            n = len(stream[hid]) if lengths is None or hid not in lengths else lengths[hid]
+            if name in st:
+                st[name] = base[hid] + stream[hid][:n]
     return st
 
 
+def _at_risk(log):
+    """{handle: (bytes safely in the file, bytes written)} for handles that are open with
+    unflushed data at the end of `log`"""
+    written, safe, open_ = {}, {}, set()
+    for e in log:
+        if e[0] == "open":
+            open_.add(e[1])
+            written[e[1]] = 0
+            safe[e[1]] = 0
+        elif e[0] == "write":
+            written[e[1]] += len(e[2])
+        elif e[0] in ("flush", "close"):
+            safe[e[1]] = written.get(e[1], 0)
+            if e[0] == "close":
+                open_.discard(e[1])
+    return {h: (safe[h], written[h]) for h in open_ if written[h] > safe[h]}
+
+
+def _lengths(lo, hi, stride):
+    out = {lo, hi}
+    for n in range(lo, hi + 1):
+        if stride == 1 or n - lo <= 3 or hi - n <= 3 or n % stride == 0:
+            out.add(n)
+    return sorted(out)
+
+
 def crash_states(state, log, stride):
-    """All states a kill can leave behind: every prefix of the effect log, and inside each
-    written file every `stride`-th byte of the stream plus the first and last 3 bytes of
-    every write call (stride 1 = every byte prefix)."""
+    """All states a kill can leave behind.  Kill points: every prefix of the effect log that
+    does not end inside a run of writes to one handle (those are covered by the byte
+    positions below); at each kill point every handle with unflushed data may have
+    delivered any number of bytes between what was flushed and what was written - every
+    `stride`-th byte plus the first and last 3 (stride 1 = every byte)."""
+    import itertools
+
     out = {}
-    offset = {}
     for e_idx in range(len(log) + 1):
-        # boundaries between two write calls on the same file are byte positions of the
-        # stream and are governed by the stride like any other byte
-        mid_stream = (
-            0 < e_idx < len(log)
-            and log[e_idx][0] == "write"
-            and log[e_idx - 1][0] == "write"
-            and log[e_idx - 1][1] == log[e_idx][1]
-        )
-        pos0 = offset.get(log[e_idx][1], 0) if mid_stream else 0
-        if not mid_stream or stride == 1 or pos0 <= 3 or pos0 % stride == 0:
-            st = apply_effects(state, log[:e_idx])
-            out.setdefault(canon(st), ("effect", e_idx))
-        if e_idx < len(log) and log[e_idx][0] == "truncate":
-            offset[log[e_idx][1]] = 0
-        if e_idx < len(log) and log[e_idx][0] == "write":
-            name, data = log[e_idx][1], log[e_idx][2]
-            base = offset.get(name, 0)
-            for k in range(1, len(data)):
-                pos = base + k
-                if stride == 1 or pos <= 3 or pos % stride == 0:
-                    st = apply_effects(state, log[: e_idx + 1], partial=(e_idx, k))
-                    out.setdefault(canon(st), ("byte", e_idx, k))
-            offset[name] = base + len(data)
-    # the last three bytes of every file's stream
-    for name, total in offset.items():
-        for back in (1, 2, 3):
-            target = total - back
-            base = 0
-            for e_idx, e in enumerate(log):
-                if e[0] == "truncate" and e[1] == name:
-                    base = 0
-                if e[0] == "write" and e[1] == name:
-                    if base < target < base + len(e[2]):
-                        st = apply_effects(state, log[: e_idx + 1], partial=(e_idx, target - base))
-                        out.setdefault(canon(st), ("byte", e_idx, target - base))
-                    base += len(e[2])
+        if e_idx < len(log) and log[e_idx][0] == "write" and e_idx > 0 and log[e_idx - 1][0] == "write" \
+                and log[e_idx - 1][1] == log[e_idx][1]:
+            continue
+        prefix = log[:e_idx]
+        risk = _at_risk(prefix)
+        if not risk:
+            out.setdefault(canon(replay_log(state, prefix)), ("effect", e_idx))
+            continue
+        hids = sorted(risk)
+        for combo in itertools.product(*[_lengths(risk[h][0], risk[h][1], stride) for h in hids]):
+            lengths = dict(zip(hids, combo))
+            out.setdefault(canon(replay_log(state, prefix, lengths)), ("bytes", e_idx, [[h, n] for h, n in lengths.items()]))
     return out
 
 
@@ -457,7 +486,7 @@ def run(tier, seed):
     }
     res.assumptions = [
         "Balancer.__run_pipeline is deterministic in (configuration, batch) and is memoised behind the real cache logic",
-        "a kill leaves a prefix of the run's file effects; text-mode buffering is ignored (every byte prefix is considered reachable)",
+        "a kill leaves a prefix of the run's file effects; data written to a handle reaches the file only when the handle is flushed or closed - until then any prefix between the flushed and the written bytes may be in the file (also after a rename of the open file)",
         "the persistent state is the cache directory only",
     ]
     return res
@@ -481,8 +510,16 @@ def replay(v):
             point = h[4]
             _, _, log = execute(state, op)
             if point[0] == "effect":
-                st = apply_effects(dict(state), log[: point[1]])
+                st = replay_log(dict(state), log[: point[1]])
             else:
-                st = apply_effects(dict(state), log[: point[1] + 1], partial=(point[1], point[2]))
+                # handle ids differ between executions: map by order of appearance
+                hids = [e[1] for e in log if e[0] == "open"]
+                first = min(h for h, _ in point[2]) if point[2] else 0
+                rec_hids = sorted({h for h, _ in point[2]})
+                # the recorded handles are numbered in order of opening within their run
+                opened = [e[1] for e in log[: point[1]] if e[0] == "open"]
+                risk = sorted(_at_risk(log[: point[1]]))
+                lengths = {rh: n for rh, (_, n) in zip(risk, sorted(point[2]))}
+                st = replay_log(dict(state), log[: point[1]], lengths)
             state = canon(st)
     return out
